@@ -414,3 +414,58 @@ func runRequestWriter(r *hk.Run, rng *hk.Rand) {
 		r.Add(cs, fmt.Sprint("h3wi|", i, k, third), true)
 	}
 }
+
+// ---------- HTTP/2: one connection's header encoder over a sequence of requests ----------
+// ClientConn.henc (HPACK dynamic table) and ClientConn.hbuf live as long as the connection: 2..6
+// requests (and trailers) in a row through ONE encoder, every block decoded by ONE reference
+// hpack.Decoder (its dynamic table follows the encoder's) and compared with that request's fields.
+func runH2EncoderSeq(r *hk.Run, rng *hk.Rand) {
+	for i := 0; i < r.Scale(400, 20000); i++ {
+		enc := fh2.VerifNewHeaderEncoder(1 << 20)
+		dec := hpack.NewDecoder(4096, nil)
+		k := rng.Range(2, 6)
+		for j := 0; j < k; j++ {
+			tag := fmt.Sprintf("q%d-%d", i, j%3) // repeated values: served from the dynamic table
+			req := writerRequest(rng, tag)
+			desc := map[string]interface{}{"kind": "h2-encoder-seq", "position": j, "url": req.URL.String(), "header": fmt.Sprint(req.Header)}
+			r.Count("enc.h2.seq")
+			var block []byte
+			var err error
+			var want [][2]string
+			if j > 0 && rng.Chance(20) { // trailers of the previous request in between
+				tr := http.Header{"X-Trailer-" + tag: {"t" + tag}, "Grpc-Status": {"0"}}
+				block, err = enc.EncodeTrailers(tr)
+				for k, vv := range tr {
+					for _, v := range vv {
+						want = append(want, [2]string{strings.ToLower(k), v})
+					}
+				}
+			} else {
+				block, err = enc.EncodeHeaders(req, false, "", 0)
+				want = [][2]string{{":authority", req.URL.Host}, {":method", req.Method}, {":path", req.URL.RequestURI()}, {":scheme", "https"}}
+				for k, vv := range req.Header {
+					for _, v := range vv {
+						want = append(want, [2]string{strings.ToLower(k), v})
+					}
+				}
+				if sendsContentLength(req.Method, 0) {
+					want = append(want, [2]string{"content-length", "0"})
+				}
+			}
+			if err != nil {
+				r.Fail(hk.Failure{Sig: "enc:h2:seq:error", What: "encodeHeaders refused a valid request", Input: desc, Got: err.Error()})
+				break
+			}
+			fields, derr := dec.DecodeFull(block)
+			var got [][2]string
+			for _, f := range fields {
+				got = append(got, [2]string{f.Name, f.Value})
+			}
+			if derr != nil || fmt.Sprint(multiset(got)) != fmt.Sprint(multiset(want)) {
+				r.Fail(hk.Failure{Sig: "enc:h2:seq:hpack-decode", What: "the reference hpack decoder, fed every header block of the connection in order, does not get this request's fields from its block", Input: desc, Got: fmt.Sprintf("%q %v", got, derr), Want: fmt.Sprintf("%q", want)})
+				break
+			}
+			r.Add(hk.Case{Desc: desc}, fmt.Sprint("h2es|", i, j, req.URL, req.Header), true)
+		}
+	}
+}
